@@ -179,38 +179,14 @@ func reachableFromBlock(b *ssa.BasicBlock) map[*ssa.BasicBlock]bool {
 }
 
 func runC10(p *core.Program, r *core.Report) {
-	eff := core.GetEff(p)
 	c := resolveWLCtor(p, r, "R10.2")
 	if c == nil {
 		return
 	}
 	fn := c.fn
-	name := core.FuncName(fn)
+	_ = fn
 
-	// R10.1
-	bad := 0
-	for _, ef := range eff.Summary[fn] {
-		bad++
-		r.Fail("R10.1", name, ef.What+" -> "+ef.Root.String(), p.InstrPos(ef.Instr), "the constructor modifies memory it does not own (the caller's slice)")
-	}
-	if bad == 0 {
-		r.Pass("R10.1", name, "no write rooted at the parameter", p.Pos(fn.Pos()), fmt.Sprintf("%d direct writes, all to fresh memory", len(eff.Direct[fn])))
-	}
-	for f, v := range c.fields {
-		if v == nil {
-			r.Fail("R10.1", name, "field "+f+" stored more than once", p.Pos(fn.Pos()), "")
-			continue
-		}
-		okRoots := true
-		why := ""
-		for _, root := range eff.MemRoots(v) {
-			if root.Kind != core.RFresh && root.Kind != core.RLocal {
-				okRoots = false
-				why = "value stored into " + f + " aliases " + root.String()
-			}
-		}
-		r.Check(okRoots, "R10.1", name, "result field "+f+" does not retain caller memory", p.Pos(fn.Pos()), why)
-	}
+	checkCallerSliceUntouchedOn(p, r, c)
 
 	if !checkKeptSet(p, r, c) {
 		return
@@ -226,7 +202,9 @@ func runC10(p *core.Program, r *core.Report) {
 
 	// "every generated atom is a kept word or its title-cased form": the generator indexes the
 	// kept words and capitalises with the same strings.Title the twin removal uses (= C04 R4.4 re-run)
-	if g, _ := resolveWLGen(p); g != nil {
+	if g, why := resolveWLGen(p); g == nil {
+		r.Unrecognised("R10.3", "(spg.WLRecipe).Generate", "generation shape", "", why)
+	} else {
 		r.Borrow("R10.3", func() { checkTitleIffCap(p, r, g, "R4.4") })
 	}
 
@@ -370,15 +348,32 @@ func isDocumentedDeletion(c *wlCtor, d *ssa.Call) (bool, string) {
 		return false, "Title is not applied to the current range key"
 	}
 	neq, present := false, false
+	extra := ""
 	for _, g := range core.Guards(d.Block()) {
+		if !l.Blocks[g.If.Block()] || g.If.Block() == l.Header {
+			continue
+		}
 		if rel, ok := core.AsRel(g); ok && rel.Op == token.NEQ {
 			if (rel.X == ssa.Value(t) && rel.Y == ssa.Value(k)) || (rel.Y == ssa.Value(t) && rel.X == ssa.Value(k)) {
 				neq = true
+				continue
 			}
 		}
-		if lk, ok := g.Cond.(*ssa.Lookup); ok && g.Pos && lk.X == d.Call.Args[0] && lk.Index == ssa.Value(t) {
+		// presence tests of k or of Title(k) in the same map change nothing
+		if lk, ok := g.Cond.(*ssa.Lookup); ok && g.Pos && lk.X == d.Call.Args[0] && (lk.Index == ssa.Value(t) || lk.Index == ssa.Value(k)) {
 			present = true
+			continue
 		}
+		if ex, ok := g.Cond.(*ssa.Extract); ok && g.Pos {
+			if lk, isLk := ex.Tuple.(*ssa.Lookup); isLk && lk.X == d.Call.Args[0] && (lk.Index == ssa.Value(t) || lk.Index == ssa.Value(k)) {
+				present = true
+				continue
+			}
+		}
+		extra = "additional condition on the deletion at " + g.If.Block().String() + ": " + core.Describe(g.Cond)
+	}
+	if extra != "" {
+		return false, extra + " (a twin the extra condition lets through stays in the list)"
 	}
 	if !neq {
 		return false, "deletion is not guarded by Title(k) != k (a word equal to its own title form would delete itself)"
@@ -670,4 +665,42 @@ func checkKeptSet(p *core.Program, r *core.Report, c *wlCtor) bool {
 	}
 
 	return true
+}
+
+// checkCallerSliceUntouched: R10.1 (resolved constructor).
+func checkCallerSliceUntouched(p *core.Program, r *core.Report) {
+	if c := resolveWLCtor(p, r, "R10.1"); c != nil {
+		checkCallerSliceUntouchedOn(p, r, c)
+	}
+}
+
+func checkCallerSliceUntouchedOn(p *core.Program, r *core.Report, c *wlCtor) {
+	eff := core.GetEff(p)
+	fn := c.fn
+	name := core.FuncName(fn)
+	// R10.1
+	bad := 0
+	for _, ef := range eff.Summary[fn] {
+		bad++
+		r.Fail("R10.1", name, ef.What+" -> "+ef.Root.String(), p.InstrPos(ef.Instr), "the constructor modifies memory it does not own (the caller's slice)")
+	}
+	if bad == 0 {
+		r.Pass("R10.1", name, "no write rooted at the parameter", p.Pos(fn.Pos()), fmt.Sprintf("%d direct writes, all to fresh memory", len(eff.Direct[fn])))
+	}
+	for f, v := range c.fields {
+		if v == nil {
+			r.Fail("R10.1", name, "field "+f+" stored more than once", p.Pos(fn.Pos()), "")
+			continue
+		}
+		okRoots := true
+		why := ""
+		for _, root := range eff.MemRoots(v) {
+			if root.Kind != core.RFresh && root.Kind != core.RLocal {
+				okRoots = false
+				why = "value stored into " + f + " aliases " + root.String()
+			}
+		}
+		r.Check(okRoots, "R10.1", name, "result field "+f+" does not retain caller memory", p.Pos(fn.Pos()), why)
+	}
+
 }
